@@ -119,7 +119,8 @@ def fn_outputs(name, x, cfg):
     if name == 'speriodogram':
         return {'psd': (speriodogram(x, NFFT=cfg['NFFT'], window=cfg['window'], detrend=False, scale_by_freq=False), 2)}
     if name == 'CORRELOGRAMPSD':
-        return {'psd': (CORRELOGRAMPSD(x, lag=cfg['lag'], NFFT=cfg['NFFT'], window=cfg['window'], norm=cfg['norm']), 2)}
+        kw = {} if cfg.get('correlation_method') is None else {'correlation_method': cfg['correlation_method']}
+        return {'psd': (CORRELOGRAMPSD(x, lag=cfg['lag'], NFFT=cfg['NFFT'], window=cfg['window'], norm=cfg['norm'], **kw), 2)}
     if name == 'CORRELATION':
         return {'r': (CORRELATION(x, maxlags=cfg['maxlags'], norm=cfg['norm']), 0 if cfg['norm'] == 'coeff' else 2)}
     if name == 'xcorr':
@@ -129,7 +130,8 @@ def fn_outputs(name, x, cfg):
         a, rho, k = arburg(x, cfg['order'], criteria=cfg.get('criteria'))
         return {'a': (a, 0), 'rho': (rho, 2), 'k': (k, 0)}
     if name == 'aryule':
-        a, P, k = aryule(x, cfg['order'], norm=cfg.get('norm', 'biased'))
+        kw = {} if cfg.get('allow_singularity') is None else {'allow_singularity': cfg['allow_singularity']}
+        a, P, k = aryule(x, cfg['order'], norm=cfg.get('norm', 'biased'), **kw)
         return {'a': (a, 0), 'P': (P, 2), 'k': (k, 0)}
     if name == 'arcovar':
         a, e = arcovar(x, cfg['order']); return {'a': (a, 0), 'e': (e, 2)}
@@ -164,14 +166,17 @@ def fn_cfg(name, N, rng, cplx):
         return {'NFFT': NFFT, 'window': E.pick_window(rng, ['hann', 'hamming', 'rectangular', 'blackman', 'bartlett'])}
     if name == 'CORRELOGRAMPSD':
         lag = int(rng.integers(2, N // 2)); return {'lag': lag, 'NFFT': max(NFFT, 2 * lag + 2), 'window': E.pick_window(rng, ['hamming', 'hann', 'rectangular']),
-                                                    'norm': str(rng.choice(['biased', 'unbiased']))}
+                                                    'norm': str(rng.choice(['biased', 'unbiased'])),
+                                                    'correlation_method': [None, 'xcorr', 'CORRELATION'][int(rng.integers(0, 3))]}
     if name in ('CORRELATION', 'xcorr'):
         return {'maxlags': int(rng.integers(0, N)), 'norm': str(rng.choice(['biased', 'unbiased', 'coeff'])) if name == 'xcorr' else
                 rng.choice(['biased', 'unbiased', 'coeff', None])}
     if name == 'arburg':
         return {'order': int(rng.integers(1, min(N // 3, 12))), 'criteria': rng.choice([None, None, 'AIC', 'AICc', 'KIC', 'AKICc', 'FPE', 'MDL'])}
     if name == 'aryule':
-        return {'order': int(rng.integers(1, min(N // 3, 12))), 'norm': str(rng.choice(['biased', 'unbiased']))}
+        # every pair of option values (an omitted allow_singularity is its own case)
+        return {'order': int(rng.integers(1, min(N // 3, 12))), 'norm': str(rng.choice(['biased', 'unbiased'])),
+                'allow_singularity': [None, True, False][int(rng.integers(0, 3))]}
     if name in ('arcovar', 'modcovar', 'arcovar_marple', 'modcovar_marple'):
         return {'order': int(rng.integers(1, min(N // 4, 8)))}
     if name == 'arma_estimate':
@@ -196,6 +201,22 @@ def fn_cfg(name, N, rng, cplx):
     if name == 'lpc':
         return {'order': int(rng.integers(1, min(N // 3, 10)))}
     raise KeyError(name)
+
+
+def _grid(**axes):
+    import itertools
+    keys = list(axes)
+    return [dict(zip(keys, vals)) for vals in itertools.product(*[axes[k] for k in keys])]
+
+
+# the enumerated option values of each functional estimator: every combination is visited once per run (a change may concern ONE pair only)
+OPTION_GRID = {'aryule': _grid(norm=['biased', 'unbiased'], allow_singularity=[None, True, False]),
+               'CORRELOGRAMPSD': _grid(norm=['biased', 'unbiased'], correlation_method=[None, 'xcorr', 'CORRELATION']),
+               'CORRELATION': _grid(norm=['biased', 'unbiased', 'coeff', None]), 'xcorr': _grid(norm=['biased', 'unbiased', 'coeff']),
+               'arburg': _grid(criteria=[None, 'AIC', 'AICc', 'KIC', 'AKICc', 'FPE', 'MDL']),
+               'music': [{'NSIG': 2}, {'threshold': 2.0}, {'criteria': 'aic'}, {'criteria': 'mdl'}],
+               'ev': [{'NSIG': 2}, {'threshold': 2.0}, {'criteria': 'aic'}, {'criteria': 'mdl'}],
+               'pmtm': _grid(method=['unity', 'eigen', 'adapt'])}
 
 
 FUNCS = ['speriodogram', 'CORRELOGRAMPSD', 'CORRELATION', 'xcorr', 'arburg', 'aryule', 'arcovar', 'modcovar', 'arcovar_marple',
@@ -455,7 +476,7 @@ def run(ctx):
     # ---------------- property-directed search: every functional estimator
     nextreme = 2 * len(FUNCS)
     nrealc = len(FUNCS)
-    for it in range(nextreme + nrealc + ctx.q(170, 1700)):
+    for it in range(nextreme + nrealc + max(ctx.q(170, 1700), 7 * len(FUNCS))):
         name = FUNCS[it % len(FUNCS)]
         cplx = bool(rng.integers(0, 2)) if name != 'lpc' else False
         N = int(rng.integers(16, 65))
@@ -474,6 +495,12 @@ def run(ctx):
             x, kind = gen(rng, N, cplx)
             c = rand_scalar(rng, cplx)
         cfg = fn_cfg(name, N, rng, cplx)
+        if it >= nextreme + nrealc:
+            # the first pass after the special streams walks the GRID of enumerated option values of the function (every pair of values once)
+            g = OPTION_GRID.get(name, []); j = (it - nextreme - nrealc) // len(FUNCS)
+            if j < len(g):
+                cfg = {k: v for k, v in cfg.items() if k not in ('NSIG', 'threshold', 'criteria')} if name in ('music', 'ev') else cfg
+                cfg.update(g[j]); kind = kind + '+grid'
         tag = 'complex' if cplx else 'real'
         ctx.count('search/function/%s/%s/%s' % (name, tag, kind))
         ctx.case(('fn', name, json.dumps(jcfg(cfg), sort_keys=True), x.tobytes(), str(c)), nontrivial=True,
